@@ -335,7 +335,7 @@ def warm_parser():
 
 
 def run(ctx):
-    depth = 3 if ctx.quick else 5
+    depth = 3 if ctx.quick else 4
     V = common.Violations(keep=6)
     states_total = trans_total = 0
     per_prog = {}
